@@ -56,7 +56,7 @@ def entries(draw, lo, hi):
 @st.composite
 def pair_spec(draw, idx, tamper_heavy):
     return {
-        "passphrase": draw(st.sampled_from(["", "", " ", "\t"])) + draw(st.one_of(st.sampled_from(["password", "pässwörd", "p w", ""]), st.text(min_size=1, max_size=12)))
+        "passphrase": draw(st.sampled_from(["", "", " ", "\t"])) + draw(st.one_of(st.sampled_from(["password", "pässwörd", "p w", "", "cafe\u0301", "\u212bngstro\u0308m", "\u1112\u1161\u11ab", "o\u0323\u0308"]), st.text(min_size=1, max_size=12)))
         + f"#{idx}" + draw(st.sampled_from(["", "", " ", "\n"])),
         "cipher": draw(st.sampled_from(list(bx.KEY_SIZES))), "mac": draw(st.sampled_from(list(bx.MACS))),
         "kdf": draw(st.sampled_from(list(bx.KDFS))),
@@ -124,6 +124,7 @@ def unlock(text, phrase):
     v = VMX.parse(text)
     before = copy.deepcopy(v.attr)
     v.disks_before_unlock = lib(lambda: list(v.disks()))[0]  # also: whatever disks() derives must not survive the unlock
+    v.attr_seen_before = v.attr  # the dictionary as a caller saw it before unlocking (a reference, not a copy)
     _, err = lib(v.unlock_with_phrase, phrase)
     return v, before, err
 
@@ -148,6 +149,10 @@ def check(spec) -> Outcome:
         diff = {k: (v.attr.get(k), after.get(k)) for k in set(v.attr) | set(after) if v.attr.get(k) != after.get(k)}
         out.fail(f"mismatch|unlock|{tag}", f"attr after unlock differs: {diff}")
         return out
+
+    if v.attr_seen_before != after:
+        out.fail(f"mismatch|unlock-stale-reference|{tag}", "the configuration dictionary a caller obtained before unlocking does not show the "
+                                                          "unlocked entries (vmx.attr was replaced, not updated)")
 
     from hv.props import c18
 
@@ -174,6 +179,9 @@ def check(spec) -> Outcome:
 
     # (b) wrong passphrases (incl. decoys' own passphrases)
     near = [pw + " ", " " + pw, pw + "\n", pw.strip(), pw.upper(), pw.lower(), pw[:-1], pw + pw[-1:], pw.replace("#", "")]
+    import unicodedata
+
+    near += [unicodedata.normalize(form, pw) for form in ("NFC", "NFD", "NFKC", "NFKD")] + [pw.casefold()]  # other strings, other keys
     wrong = [w for w in dict.fromkeys(spec["wrong"] + near) if w != pw]
     wrong += [q["passphrase"] for i, q in enumerate(spec["pairs"]) if i != spec["correct"]]
     for w in wrong:
